@@ -24,6 +24,7 @@ type Conformance struct {
 	// OnStarve is called once when StarveLimit evaluation steps passed without a yield (logical time)
 	StarveLimit int
 	OnStarve    func()
+	OnStep      func() // called on every evaluation step (progress signal)
 }
 
 func NewConformance() *Conformance { return &Conformance{Kinds: map[string]int64{}} }
@@ -34,6 +35,9 @@ func (m *Conformance) Attach(ev *evaluator.Evaluator) {
 		Enter: func(parser.Node) {
 			m.Steps++
 			m.SinceYield++
+			if m.OnStep != nil {
+				m.OnStep()
+			}
 			if m.SinceYield > m.MaxSinceYield {
 				m.MaxSinceYield = m.SinceYield
 			}
